@@ -29,7 +29,7 @@ AUX = {'mincost', 'minsqcost', 'lmb', 'lsb', 'mincostlsb'}
 
 
 def budget(tier):
-    return 10000 if tier == 'quick' else 120000
+    return 10000 if tier == 'quick' else 300000
 
 
 @st.composite
